@@ -71,7 +71,10 @@ func c02Gen(t *rapid.T, tier string) any {
 	c.Prepop = rapid.SliceOfNDistinct(rapid.IntRange(0, c.NKeys-1), 0, c.NKeys, func(i int) int { return i }).Draw(t, "prepop")
 	kinds := []string{"put", "put", "putmany", "delete", "delete", "has", "has", "get", "getsize", "view"}
 	if c.BloomBytes > 0 {
-		kinds = append(kinds, "rebuild", "wait", "cancelbuild")
+		kinds = append(kinds, "rebuild", "wait")
+		if rapid.IntRange(0, 5).Draw(t, "withcancel") == 0 {
+			kinds = append(kinds, "cancelbuild")
+		}
 	}
 	maxOps := 8
 	if tier == "thorough" {
@@ -108,7 +111,10 @@ func c02Gen(t *rapid.T, tier string) any {
 	}
 	c.Cfg = verifsim.GenConfig(t, maxTape, 4000, time.Minute, nil)
 	if rapid.IntRange(0, 3).Draw(t, "bug") == 0 {
-		c.Cfg.Buggify = []string{"query-reverse"}
+		c.Cfg.Buggify = append(c.Cfg.Buggify, "query-reverse")
+	}
+	if rapid.IntRange(0, 1).Draw(t, "postyield") == 0 {
+		c.Cfg.Buggify = append(c.Cfg.Buggify, "ds-post-yield")
 	}
 	return c
 }
